@@ -12,7 +12,7 @@ from floats import tok, random_bits
 
 RULE = ("(a) the full grid statistic(14) x shapes with 1..4 axes and lengths 0..4 (quick: lengths 0..3 up to 3 axes + "
         "seeded 4-axis sample), text and npy input; (b) fold (4 fills) and view (mask, normalize, -m/-M incl. duplicates "
-        "and out-of-range, --project-shape / -p incl. 0, equal, larger, 2^63, 2^64-1) on the same shapes; (c) option "
+        "and out-of-range, --project-shape / -p incl. 0, equal, larger, 2^63, 2^64-1) on the same shapes; (b') 1-D sizes 169..176, 345, 1031 and n x 3 spectra around the factorial-table seam, cohorts of 85-88 samples with projection; (c) option "
         "values at and beyond bounds: --precision 0, 17, 65535, 65536, 2^32; --threads 0, 1, 2^40; (d) inputs: empty, "
         "1..7 bytes, headers with absurd shapes (0, 2^32/2^32, 2^64, empty, negative, non-numeric), values nan/1e999/"
         "garbage, npy with absurd header_len, bit flips and splices of valid text/npy files; (e) create: contradictory / "
@@ -68,6 +68,20 @@ def check(rep, tier, seed):
             jobs.append((["view", "--project-shape", fmt(to)], txt, "grid"))
         for ind in ([0] * d, [1] * d, [2**63] * d, [2**64 - 1] * d, [2**62] * d):
             jobs.append((["view", "-p", fmt(ind)], txt, "grid"))
+    # sizes around the factorial table / ln-gamma seam (170! is the largest finite f64 factorial) and a few large ones
+    for n in (169, 170, 171, 172, 173, 174, 175, 176, 345, 1031):
+        txt1 = text_spectrum([n], [str(rng.randrange(0, 9)) for _ in range(n)])
+        for st in STATS:
+            jobs.append((["stat", "-s", st], txt1, "seam"))
+        for to in (1, 5, n - 1, n):
+            jobs.append((["view", "--project-shape", str(to)], txt1, "seam"))
+        jobs.append((["fold"], txt1, "seam"))
+        if n < 200:
+            txt2 = text_spectrum([n, 3], [str(rng.randrange(0, 9)) for _ in range(3 * n)])
+            for st in ("f2", "fst", "pi-xy"):
+                jobs.append((["stat", "-s", st], txt2, "seam"))
+            jobs.append((["view", "--project-shape", "7,2"], txt2, "seam"))
+            jobs.append((["view", "-m", "1", "--project-shape", "172"], txt2, "seam"))
     base = text_spectrum([3, 3], [str(i) for i in range(9)])
     for p in ("0", "17", "65535", "65536", "4294967296", "18446744073709551615"):
         jobs.append((["view", "--precision", p], base, "precision"))
@@ -131,6 +145,12 @@ def check(rep, tier, seed):
         jobs.append((["create", "--threads", t], bgzf_compress(vcf), "threads"))
     for p in ("65535", "65536", "4294967296"):
         jobs.append((["create", "--precision", p, "-p", "1"], vcf, "precision"))
+    # cohorts at the seam with projection
+    for nsmp in (85, 86, 87, 88):
+        cols_ = ["s%d" % i for i in range(nsmp)]
+        recs_ = [["0/1"] + ["0/0"] * (nsmp - 1), ["1/1"] * (nsmp - 1) + ["0/1"], ["0/1", "./."] + ["0/0"] * (nsmp - 2), ["1/1"] * nsmp]
+        for pr in (["-p", "5"], ["--project-shape", str(2 * nsmp)], ["--project-shape", "172"]):
+            jobs.append((["create"] + pr, render_vcf(cols_, recs_), "seam"))
     # mutated call-set containers (fuzz-style; noodles is not modelled)
     cont = {"vcf": vcf, "vcf.gz": bgzf_compress(vcf, sizes=[60, 200])}
     raw = vcf_to_bcf(vcf, "c17", "raw")
